@@ -12,6 +12,7 @@ import (
 
 	validation "github.com/go-ozzo/ozzo-validation/v4"
 
+	"github.com/ARM-software/golang-utils/utils/commonerrors"
 	"github.com/ARM-software/golang-utils/utils/config"
 )
 
@@ -130,6 +131,9 @@ func (c *DP) Validate() error { return validateLevel(c) }
 // The process runs cases sequentially (the environment is process-global anyway), so a package variable is sound.
 var requiredNow = map[string]bool{}
 
+// validatorStyleNow is the scenario's ValidatorStyle.
+var validatorStyleNow = ""
+
 // validateLevel is what the ReadMe of utils/config tells the author of a configuration structure to write:
 // validate the embedded structures first, then the fields of this level (ozzo-validation, `Required`).
 func validateLevel(cfg config.Validator) error {
@@ -138,6 +142,18 @@ func validateLevel(cfg config.Validator) error {
 	}
 	v := reflect.ValueOf(cfg).Elem()
 	t := v.Type()
+	if validatorStyleNow == "library-error" {
+		for i := 0; i < t.NumField(); i++ {
+			if requiredNow[t.Name()+"."+t.Field(i).Name] && v.Field(i).IsZero() {
+				name := t.Field(i).Tag.Get("mapstructure")
+				if name == "" {
+					name = t.Field(i).Name
+				}
+				return commonerrors.UndefinedVariable(name)
+			}
+		}
+		return nil
+	}
 	var rules []*validation.FieldRules
 	for i := 0; i < t.NumField(); i++ {
 		if requiredNow[t.Name()+"."+t.Field(i).Name] {
